@@ -2,6 +2,7 @@ package calls
 
 import (
 	"context"
+	"encoding/base64"
 	"errors"
 	"fmt"
 	"io"
@@ -51,6 +52,12 @@ type CancelCase struct {
 	// HalfClose: the client half-closes after its K messages and the handler
 	// reads up to that end of stream before entering the state.
 	HalfClose bool `json:"half_close,omitempty"`
+	// Raw HTTP/1.1 clients: framing of the request body - "" Content-Length,
+	// or Transfer-Encoding: chunked with the terminating last-chunk sent
+	// together with the messages / a moment later / never before the
+	// disconnect. Text: application/grpc-web-text.
+	Framing string `json:"framing,omitempty"` // "" | chunked-together | chunked-later | chunked-never
+	Text    bool   `json:"text,omitempty"`
 }
 
 func (c *CancelCase) class() string {
@@ -64,6 +71,12 @@ func (c *CancelCase) class() string {
 	}
 	if c.HalfClose {
 		t = "+half-closed" + t
+	}
+	if c.Framing != "" {
+		t = "+" + c.Framing + t
+	}
+	if c.Text {
+		t = "+text" + t
 	}
 	p := ""
 	if c.Target != "" {
@@ -131,7 +144,7 @@ func (s *cancelSvc) serverFor(target string, o Opts) (*wire.Server, error) {
 	if err != nil {
 		return nil, err
 	}
-	srv, err := wire.StartLarking(mux, nil, larking.MuxHandleOption("/__unused"), larking.HTTPHandlerOption("/", s.boundary(mux)))
+	srv, err := wire.StartLarking(mux, nil, larking.MuxHandleOption("/__unused"), larking.HTTPHandlerOption("/", s.boundary(mux)), larking.HTTPHandlerOption("/__ref/", http.HandlerFunc(s.refHandler)))
 	if err != nil {
 		return nil, err
 	}
@@ -283,9 +296,15 @@ func (s *cancelSvc) stream(md protoreflect.MethodDescriptor, ss grpc.ServerStrea
 				}
 			}
 			if sst && (!seq || pass == 1) && !(h1 && cs && (c.State == "in-recv" || c.State == "between-recv")) {
+				if c.Framing == "chunked-never" {
+					sc.log.log("setup-send-enter", nil, i)
+				}
 				if err := ss.SendMsg(small); err != nil {
 					sc.log.log("setup-error", err, i)
 					return err
+				}
+				if c.Framing == "chunked-never" {
+					sc.log.log("setup-send-ok", nil, i)
 				}
 			}
 		}
@@ -566,16 +585,23 @@ func (s *cancelSvc) startH2C(sc *cscn, srv *wire.Server) (*cancelClient, error) 
 	return cl, nil
 }
 
-func (s *cancelSvc) startH1(sc *cscn, srv *wire.Server) (*cancelClient, error) {
-	c := sc.spec
-	conn, err := net.Dial("tcp", srv.Addr)
-	if err != nil {
-		return nil, err
-	}
+// h1Req is a raw HTTP/1.1 request in the pieces the client writes.
+type h1Req struct {
+	first []byte // request line, headers and the body bytes sent with them
+	later []byte // chunked terminator sent a moment later ("chunked-later")
+	readN int    // body bytes the handler consumes before it answers (-1: up to the end of the body)
+}
+
+// buildH1 renders the scenario's request; ref renders it for the plain
+// net/http reference handler instead of larking.
+func (s *cancelSvc) buildH1(c *CancelCase, id string, ref bool) h1Req {
 	n, _, partial := plan(c)
 	isHTTP := c.Transport == "h1-http"
 	verb, path := "POST", s.std.Full(s.methodOf(c.Shape))
 	ct := "application/grpc-web+proto"
+	if c.Text {
+		ct = "application/grpc-web-text+proto"
+	}
 	if isHTTP {
 		verb, path = s.httpPath(c)
 		ct = "application/json"
@@ -590,6 +616,13 @@ func (s *cancelSvc) startH1(sc *cscn, srv *wire.Server) (*cancelClient, error) {
 	for i := 0; i < n; i++ {
 		body = append(body, one()...)
 	}
+	if c.Text && !isHTTP {
+		body = []byte(base64.StdEncoding.EncodeToString(body))
+	}
+	q := h1Req{readN: len(body)}
+	if isHTTP && (c.Shape == "unary" || c.Shape == "ss") {
+		q.readN = -1 // a single transcoded message is the whole body
+	}
 	cl := len(body)
 	if partial {
 		// announce one more message than is sent; deliver only its first bytes
@@ -601,17 +634,71 @@ func (s *cancelSvc) startH1(sc *cscn, srv *wire.Server) (*cancelClient, error) {
 		body = append(body, m[:min(3, len(m)-1)]...)
 	}
 	var sb strings.Builder
-	fmt.Fprintf(&sb, "%s %s HTTP/1.1\r\nHost: verif.test\r\nX-Scn: %s\r\n", verb, path, sc.id)
+	if ref {
+		replies := 0
+		if c.Shape == "ss" || c.Shape == "bidi" {
+			replies = c.K
+			if c.State == "in-send" && replies == 0 {
+				replies = 1
+			}
+		}
+		fmt.Fprintf(&sb, "POST /__ref/x HTTP/1.1\r\nHost: verif.test\r\nX-Scn: %s\r\nX-Ref-Read: %d\r\nX-Ref-Replies: %d\r\n", id, q.readN, replies)
+		verb = "POST"
+	} else {
+		fmt.Fprintf(&sb, "%s %s HTTP/1.1\r\nHost: verif.test\r\nX-Scn: %s\r\n", verb, path, id)
+	}
+	chunked := c.Framing != "" && verb != "GET"
 	if verb != "GET" {
-		fmt.Fprintf(&sb, "Content-Type: %s\r\nContent-Length: %d\r\n", ct, cl)
+		fmt.Fprintf(&sb, "Content-Type: %s\r\n", ct)
+		if chunked {
+			sb.WriteString("Transfer-Encoding: chunked\r\n")
+		} else {
+			fmt.Fprintf(&sb, "Content-Length: %d\r\n", cl)
+		}
 	}
 	if c.Timeout && !isHTTP {
 		sb.WriteString("Grpc-Timeout: 3600S\r\n")
 	}
 	sb.WriteString("\r\n")
-	if _, err := conn.Write(append([]byte(sb.String()), body...)); err != nil {
+	q.first = []byte(sb.String())
+	if !chunked {
+		q.first = append(q.first, body...)
+		return q
+	}
+	if len(body) > 0 {
+		q.first = append(q.first, fmt.Sprintf("%x\r\n", len(body))...)
+		q.first = append(q.first, body...)
+		q.first = append(q.first, "\r\n"...)
+	}
+	switch c.Framing {
+	case "chunked-together":
+		q.first = append(q.first, "0\r\n\r\n"...)
+	case "chunked-later":
+		q.later = []byte("0\r\n\r\n")
+	}
+	return q
+}
+
+func (s *cancelSvc) startH1(sc *cscn, srv *wire.Server) (*cancelClient, error) {
+	return s.dialH1(sc.spec, srv, s.buildH1(sc.spec, sc.id, false))
+}
+
+func (s *cancelSvc) dialH1(c *CancelCase, srv *wire.Server, q h1Req) (*cancelClient, error) {
+	conn, err := net.Dial("tcp", srv.Addr)
+	if err != nil {
+		return nil, err
+	}
+	if _, err := conn.Write(q.first); err != nil {
 		conn.Close()
 		return nil, err
+	}
+	if len(q.later) > 0 {
+		// a later segment, well before the disconnect
+		time.Sleep(5 * time.Millisecond)
+		if _, err := conn.Write(q.later); err != nil {
+			conn.Close()
+			return nil, err
+		}
 	}
 	return &cancelClient{
 		cancel: func() {
@@ -624,6 +711,70 @@ func (s *cancelSvc) startH1(sc *cscn, srv *wire.Server) (*cancelClient, error) {
 		},
 		close: func() { conn.Close() },
 	}, nil
+}
+
+// refHandler is a plain net/http handler with the I/O pattern of the
+// scenario's larking handler: it reads the same part of the request body,
+// writes and flushes the same number of replies and then waits for its request
+// context. It shows whether net/http, left to itself, reports the client's
+// disconnect for this request framing.
+func (s *cancelSvc) refHandler(w http.ResponseWriter, r *http.Request) {
+	v, ok := s.scns.Load(r.Header.Get("X-Scn"))
+	if !ok {
+		http.Error(w, "unknown scenario", http.StatusBadRequest)
+		return
+	}
+	sc := v.(*cscn)
+	var readN, replies int
+	fmt.Sscanf(r.Header.Get("X-Ref-Read"), "%d", &readN)
+	fmt.Sscanf(r.Header.Get("X-Ref-Replies"), "%d", &replies)
+	sc.log.log("ref-entered", nil, 0)
+	if readN < 0 {
+		io.Copy(io.Discard, r.Body) //nolint:errcheck
+	} else if readN > 0 {
+		io.ReadFull(r.Body, make([]byte, readN)) //nolint:errcheck
+	}
+	for i := 0; i < replies; i++ {
+		sc.log.log("ref-send-enter", nil, i)
+		w.Write([]byte("{}")) //nolint:errcheck
+		if f, ok := w.(http.Flusher); ok {
+			f.Flush()
+		}
+		sc.log.log("ref-send-ok", nil, i)
+	}
+	sc.log.log("ref-idle", nil, 0)
+	select {
+	case <-r.Context().Done():
+		sc.log.log("ref-ctx-done", r.Context().Err(), 0)
+	case <-sc.abort:
+	case <-time.After(60 * time.Second):
+	}
+}
+
+// referenceTold replays the scenario's request against refHandler and reports
+// whether net/http cancelled that request's context after the disconnect.
+func (s *cancelSvc) referenceTold(sc *cscn, srv *wire.Server) bool {
+	c := sc.spec
+	cl, err := s.dialH1(c, srv, s.buildH1(c, sc.id, true))
+	if err != nil {
+		return false
+	}
+	defer cl.close()
+	sc.log.waitFor(10*time.Second, func(ev []event) bool {
+		if index(ev, "ref-idle", 0) >= 0 {
+			return true
+		}
+		// blocked in its first flush (net/http waits for the rest of the body)
+		for i := len(ev) - 1; i >= 0; i-- {
+			if strings.HasPrefix(ev[i].Name, "ref-") {
+				return ev[i].Name == "ref-send-enter" && time.Since(sc.log.start).Microseconds()-ev[i].AtUS > 300_000
+			}
+		}
+		return false
+	})
+	sc.log.log("ref-cancel", nil, 0)
+	cl.cancel()
+	return sc.log.waitFor(releaseWatchdog, func(ev []event) bool { return index(ev, "ref-ctx-done", 0) >= 0 })
 }
 
 // ------------------------------------------------------------- driver
@@ -686,6 +837,18 @@ func (s *cancelSvc) runScenario(c *CancelCase, onSlow func()) *cancelOutcome {
 		}
 		if fwdOnly {
 			return index(ev, "serve-enter", 0) >= 0
+		}
+		if c.Framing == "chunked-never" {
+			// without the last-chunk net/http holds the handler's first flush
+			// until the rest of the request body (or the disconnect) arrives
+			for i := len(ev) - 1; i >= 0; i-- {
+				if n := ev[i].Name; n != "req-ctx-done" && n != "serve-enter" {
+					if n == "setup-send-enter" && time.Since(sc.log.start).Microseconds()-ev[i].AtUS > 300_000 {
+						return true
+					}
+					break
+				}
+			}
 		}
 		switch c.State {
 		case "pre-recv":
@@ -846,6 +1009,22 @@ func (s *cancelSvc) runScenario(c *CancelCase, onSlow func()) *cancelOutcome {
 		}
 		if told && within {
 			add("not-released:"+missing, fmt.Sprintf("net/http cancelled the request context (%s) but after %v the handler is still not released (%s; blocked below a larking frame: %v)", ev[iReq].Err, releaseWatchdog, missing, blockedIn))
+		} else if c.Framing != "" && !c.repliesFlushed() {
+			// whether net/http has seen the end of a chunked body when the
+			// handler stopped reading depends on how the bytes were read: it
+			// may legitimately not watch the connection (observation only)
+			out.Note = "chunked-body-not-read-to-its-end:connection-not-watched"
+			return out
+		} else if strings.HasPrefix(c.Transport, "h1") && within && s.referenceTold(sc, srv) {
+			// differential reference: for the same request a plain net/http
+			// handler with the same reads and writes is told about the
+			// disconnect; under larking not even the request context is
+			framing := c.Framing
+			if framing == "" {
+				framing = "content-length"
+			}
+			out.Events = sc.log.snapshot()
+			add("ctx-not-cancelled-after-disconnect:"+framing, fmt.Sprintf("the client disconnected; %v later neither the request context larking was given nor the handler's context is cancelled (%s), while net/http cancels the context of a plain handler that reads and writes the same on the same request (%s framing)", releaseWatchdog, missing, framing))
 		} else {
 			out.inconclusive = fmt.Sprintf("%s: no release within %v, but the server never reported the cancellation to larking (request context cancelled=%v, goroutine within larking=%v)", c.class(), releaseWatchdog, told, within)
 		}
@@ -969,6 +1148,40 @@ func (c *CancelCase) normalise() {
 	if !csShape || c.State == "in-recv" {
 		c.HalfClose = false
 	}
+	if !h1 || c.Target != "" || c.Get || !(c.State == "ctx-wait" || c.State == "between-send" || c.State == "in-send") {
+		c.Framing, c.Text = "", false
+	}
+	if c.Transport != "h1-web" {
+		c.Text = false
+	}
+	if c.HalfClose && c.Framing == "chunked-never" {
+		c.Framing = "chunked-later" // the handler waits for the end of the request stream
+	}
+	switch c.Framing {
+	case "chunked-later", "chunked-never":
+		// Without the last-chunk net/http watches the connection only from the
+		// handler's first flush on (it then takes the rest of the body): the
+		// handler must have sent a reply. A single transcoded message needs the
+		// end of the body to be delivered at all (never = blocked in Recv).
+		if !c.repliesFlushed() && !(c.Framing == "chunked-later" && c.Transport == "h1-http" && (c.Shape == "unary" || c.Shape == "ss")) {
+			c.Framing = "chunked-together"
+		}
+		if c.Framing == "chunked-never" && c.Transport == "h1-http" && (c.Shape == "unary" || c.Shape == "ss") {
+			c.Framing = "chunked-later"
+		}
+	}
+	if c.Framing == "chunked-together" && !c.repliesFlushed() {
+		// net/http sees the end of a chunked body that the handler does not
+		// read to its end only if the last-chunk was buffered together with
+		// the last message: keep the request well inside one read
+		// - and the handler reads at least one message, up to the very last
+		// byte before the last-chunk (the transcoding stream codec reads in
+		// its own steps)
+		n, _, _ := plan(c)
+		if n == 0 || (n+1)*(c.MsgSize+40)*2 > 2000 || (c.Transport == "h1-http" && (c.Shape == "cs" || c.Shape == "bidi")) {
+			c.Framing = ""
+		}
+	}
 	if c.Target == "proxy" && csShape {
 		// HTTP/1 is half-duplex also for larking's forwarder, which reads the
 		// client concurrently with writing the back-end's replies: the
@@ -985,6 +1198,50 @@ func (c *CancelCase) normalise() {
 	if c.HalfClose && c.K == 0 && strings.HasSuffix(c.Transport, "-http") {
 		c.K = 1 // an empty transcoded body still delivers one message built from the URL
 	}
+}
+
+// repliesFlushed: the handler has written (and flushed) at least one reply
+// before it waits.
+func (c *CancelCase) repliesFlushed() bool {
+	return (c.Shape == "ss" || c.Shape == "bidi") && (c.K > 0 || c.State == "in-send") && c.State != "pre-recv" && c.State != "in-recv" && c.State != "between-recv"
+}
+
+// framingCells: request-body framing of the raw HTTP/1.1 clients as a
+// dimension (Content-Length is the base matrix): chunked with the last-chunk
+// together with the messages, a moment later, or never before the disconnect;
+// gRPC-web binary and text, and HTTP transcoding; handler waiting after 0 or
+// >= 1 replies.
+func framingCells() []CancelCase {
+	var out []CancelCase
+	for _, c := range cancelMatrix() {
+		if !strings.HasPrefix(c.Transport, "h1") || !(c.State == "ctx-wait" || c.State == "between-send" || c.State == "in-send") {
+			continue
+		}
+		ks := []int{c.K}
+		if c.Shape == "ss" && c.State == "ctx-wait" {
+			ks = []int{0, c.K}
+		}
+		for _, k := range ks {
+			for _, text := range []bool{false, true} {
+				if text && c.Transport != "h1-web" {
+					continue
+				}
+				for _, f := range []string{"", "chunked-together", "chunked-later", "chunked-never"} {
+					if f == "" && !text && k == c.K {
+						continue // base matrix
+					}
+					d := c
+					d.K, d.Text, d.Framing = k, text, f
+					d.normalise()
+					if d.Framing != f {
+						continue // not applicable to this cell
+					}
+					out = append(out, d)
+				}
+			}
+		}
+	}
+	return out
 }
 
 // proxyMatrix: the cells of the cancellation matrix for a method reached
@@ -1044,6 +1301,7 @@ func runCancels(r *mon.Run) {
 			cases = append(cases, c)
 		}
 	}
+	cases = append(cases, framingCells()...)
 	nLocal := len(cases)
 	cases = append(cases, proxyMatrix()...)
 	// every cell under the all-off and the all-on option mask plus, in
@@ -1076,6 +1334,8 @@ func runCancels(r *mon.Run) {
 			c.Target = "proxy"
 		}
 		c.HalfClose = rng.Intn(4) == 0
+		c.Framing = []string{"", "", "chunked-together", "chunked-later", "chunked-never"}[rng.Intn(5)]
+		c.Text = rng.Intn(3) == 0
 		c.K = rng.Intn(5)
 		c.MsgSize = sizes[rng.Intn(len(sizes))]
 		c.Timeout = rng.Intn(3) == 0
@@ -1166,7 +1426,7 @@ func runCancels(r *mon.Run) {
 			r.Count("cancel_scenarios_with_mux_options", 1)
 		}
 		for _, v := range out.vs {
-			if strings.Contains(v.key, ":not-released:") {
+			if strings.Contains(v.key, ":not-released:") || strings.Contains(v.key, ":ctx-not-cancelled-after-disconnect:") {
 				wmu.Lock()
 				wedges = append(wedges, wedge{c.Target + c.Transport, c.Opts})
 				wmu.Unlock()
